@@ -20,6 +20,7 @@ ASSUMPTIONS = ["vector steps are >= 0.001 and values have <= 3 decimals (the doc
                "the reference interpreter (vmon.refcli) encodes DESIGN.md appendix B"]
 REQUIRED_COUNTERS = ["vector_cases", "date_cases", "reject_inproc", "reject_subproc", "semantic_lines", "order_variants",
                      "config_variants", "multi_config_variants", "list_checks"]
+ROTATE_TZ = True       # dates, times of day and time labels are UTC whatever the time zone of the machine
 ANCHOR_FUNCS = ["util.parse_numbers", "driver.run"]
 TIMEOUT = {"quick": 1500, "thorough": 7200}
 
@@ -442,6 +443,39 @@ def run_semantic(desc, ctx):
             if o3.status != o.status or runner.parse_csv(o3.stdout) != (h, rows):
                 ctx.violation("config-differs-from-inline", "verif %s\nvs half of the options through --config: different output (%s)"
                               % (" ".join(rel), o3.brief()), case)
+        # thresholds left out: verif chooses 20 thresholds itself and prints them; the scores must be those of exactly these
+        # thresholds (whatever other options, -c / -C included, are in force)
+        spec = gen_spec(rng, ds)
+        if spec["metric"] in CAT and spec["metric"] != "within" and "within" not in (spec.get("bin") or "") \
+                and spec.get("clim_type") != "divide" and not spec.get("obs_field") and not spec.get("fcst_field"):
+            spec = dict(spec, axis="threshold", thresholds=None)
+            spec.pop("acc", None)
+            groups = refcli.spec_to_argv(spec, paths, cpath)
+            flat = [x for g in groups for x in g]
+            rel = [a if os.sep not in a else os.path.basename(a) for a in flat]
+            o = runner.run_cli(paths + flat)
+            ctx.count("automatic_threshold_tables")
+            if o.status == "crash":
+                ctx.violation("semantic-crash|%s@%s" % (o.exc_type, o.where), "verif %s\n%s" % (" ".join(rel), o.tb), {"ds": ds, "spec": spec})
+            elif o.status == "ok":
+                h, rows = runner.parse_csv(o.stdout)
+                try:
+                    ths = [float(r[0]) for r in rows]
+                except ValueError:
+                    ths = []
+                if len(ths) == 20 and all(t == t and abs(t) < 1e9 for t in ths) and all(abs(t * 8 - round(t * 8)) > 1e-3 or abs(t * 8 - round(t * 8)) < 1e-9 for t in ths):
+                    spec2 = dict(spec, thresholds=ths)
+                    try:
+                        ref = refcli.table(ds, spec2)
+                    except (refmodel.EmptySelection, KeyError, IndexError, ZeroDivisionError):
+                        ref = None
+                    if ref is not None:
+                        msg = refcli.compare_table(h, rows, ref)
+                        ctx.case("sem|automatic-thresholds|%s" % ("clim" if spec.get("clim") else "plain"), True, {"argv": rel})
+                        if msg:
+                            ctx.violation("automatic-thresholds-table|%s" % ("clim" if spec.get("clim") else "plain"),
+                                          "verif %s (no -r)\n%s\n--- verif printed:\n%s" % (" ".join(rel), msg, runner.strip_ansi(o.stdout)[-900:]),
+                                          {"ds": ds, "spec": spec})
         # --list-*
         opts = {}
         times, leads, locs = refmodel.common_dims({"inputs": ds["inputs"], "clim": None})
